@@ -26,44 +26,62 @@ def compare_sequence(res, exp, obs, where="top", unasserted_names=()):
         obs = [(k, u, n) for k, u, n in obs
                if not (k in ("function", "macro") and any(n.arg.startswith(x + "(") for x in unasserted_names))]
     exp_ids = [e.uid for e in exp]
-    obs_ids = [u for _, u, _ in obs]
-    matched = {}
-    seen = {}
+    want_count = {}
+    for u in exp_ids:
+        want_count[u] = want_count.get(u, 0) + 1
+    pools = {}
     for k, u, n in obs:
         if u is None:
             res.violate(f"unattributed-entry:{k}@{where}", f"entry '{n.arg}' carries no generated id", None)
             continue
-        seen[u] = seen.get(u, 0) + 1
-    for u, c in seen.items():
-        if c > 1 and u in exp_ids:
-            kinds = sorted({k for k, uu, _ in obs if uu == u})
-            res.violate(f"duplicate-entry:{'+'.join(kinds)}@{where}", f"id {u} has {c} entries ({kinds})", None)
+        pools.setdefault(u, []).append((k, n))
     expd = {e.uid: e for e in exp}
-    for k, u, n in obs:
-        if u is None:
-            continue
+    for u, lst in pools.items():
         if u not in expd:
-            res.violate(f"extra-entry:{k}@{where}", f"unexpected entry '{n.arg}' (id {u})", None)
-        elif u not in matched:
-            matched[u] = (k, n)
+            res.violate(f"extra-entry:{lst[0][0]}@{where}", f"unexpected entry '{lst[0][1].arg}' (id {u})", None)
+        elif len(lst) > want_count[u]:
+            kinds = sorted({k for k, _ in lst})
+            res.violate(f"duplicate-entry:{'+'.join(kinds)}@{where}", f"id {u} has {len(lst)} entries ({kinds}), expected "
+                        f"{want_count[u]}", None)
+    # align: every expected entry takes the next unused observed node with its id
+    used = {}
+    pairs = []
+    matched = Matched()
     for e in exp:
-        if e.uid not in matched:
-            res.violate(f"missing-entry:{e.kind}@{where}", f"no entry for {e.kind} '{e.name}' (id {e.uid})", None)
-    # order among the matched
-    o = [u for u in obs_ids if u in expd]
-    o_first = []
+        lst = pools.get(e.uid, [])
+        i = used.get(e.uid, 0)
+        if i < len(lst):
+            used[e.uid] = i + 1
+            k, n = lst[i]
+            pairs.append((e, k, n))
+            matched.setdefault(e.uid, n)
+        else:
+            what = "missing-entry" if i == 0 else "missing-repeated-entry"
+            res.violate(f"{what}:{e.kind}@{where}", f"no entry for {e.kind} '{e.name}' (id {e.uid}, occurrence {i + 1})", None)
+    # order
+    o = [u for _, u, _ in obs if u in expd]
+    trimmed, cnt = [], {}
     for u in o:
-        if u not in o_first:
-            o_first.append(u)
-    x = [u for u in exp_ids if u in matched]
-    if o_first != x:
-        res.violate(f"order@{where}", f"expected id order {x}, got {o_first}", None)
-    for e in exp:
-        if e.uid in matched:
-            k, n = matched[e.uid]
-            if k != e.kind_as_observed():
-                res.violate(f"kind:{e.kind}->{k}@{where}", f"'{n.arg}' rendered as {k}, expected {e.kind}", None)
-    return {u: n for u, (k, n) in matched.items()}
+        cnt[u] = cnt.get(u, 0) + 1
+        if cnt[u] <= want_count[u]:
+            trimmed.append(u)
+    x, cnt = [], {}
+    for u in exp_ids:
+        cnt[u] = cnt.get(u, 0) + 1
+        if cnt[u] <= len(pools.get(u, [])):
+            x.append(u)
+    if trimmed != x:
+        res.violate(f"order@{where}", f"expected id order {x}, got {trimmed}", None)
+    for e, k, n in pairs:
+        if k != e.kind_as_observed():
+            res.violate(f"kind:{e.kind}->{k}@{where}", f"'{n.arg}' rendered as {k}, expected {e.kind}", None)
+    matched.pairs = [(e, n) for e, _, n in pairs]
+    return matched
+
+
+class Matched(dict):
+    """{uid: first node}; .pairs = [(expected entry, node)] aligned in order (repeated commands allowed)"""
+    pairs = ()
 
 
 OBS_KIND = {"function": "function", "macro": "macro", "data": "data", "option": "option", "class": "class",
@@ -109,10 +127,14 @@ def compare_class(res, e, node, where):
     loose = [c for c in caps.get(None, []) if isinstance(c, rstscan.Node) and c.name in ("py:method", "py:attribute")]
     for c in loose:
         res.violate(f"member-outside-section@{where}", f"'{c.arg}' precedes any section caption in class {e.name}", None)
-    m = {}
-    m.update(compare_sequence(res, e.ctors, got_ctors, where + "/ctors"))
-    m.update(compare_sequence(res, e.methods, got_methods, where + "/methods"))
-    m.update(compare_sequence(res, e.attrs, got_attrs, where + "/attrs"))
+    m = Matched()
+    pairs = []
+    for lst, got_ in ((e.ctors, got_ctors), (e.methods, got_methods), (e.attrs, got_attrs)):
+        r_ = compare_sequence(res, lst, got_, where + "/" + ("ctors" if lst is e.ctors else "methods" if lst is e.methods else "attrs"))
+        for k_, v_ in r_.items():
+            m.setdefault(k_, v_)
+        pairs.extend(r_.pairs)
+    m.pairs = pairs
     bullets = [b for b in caps.get("Inner classes", []) if isinstance(b, str)]
     got_inner = []
     for b in bullets:
